@@ -41,6 +41,11 @@ CHECKS = {
              text='All one-byte inputs, all lead bytes x boundary trail bytes (thorough: all 65 536 two-byte inputs), every requested mode x '
                   'representable or not x version: TLC classifies the bytes, runs the model and compares refusal, the mode indicator read '
                   'from the matrix and the reported mode.', ref='6 C07'),
+ 'C08': dict(tech='TLA+ reference decoder applied to every symbol of recorded make_sequence results; sequence clauses (Trace_Seq) evaluated by TLC',
+             text='Sequences for version-given (lengths around k x capacity, every length on versions 1-2) and symbol_count-given calls over '
+                  '7 content kinds: TLC decodes each symbol and checks count, version, QR-only, validity, fit, header position/total, '
+                  'parity = XOR of the message bytes, reassembly. The open finding (over-full symbols with a requested version) is accepted '
+                  'only when the named deviation Dev_SeqEstimateOnly reproduces the observation exactly.', ref='6 C08'),
 }
 
 NOT_YET = {}
